@@ -90,8 +90,8 @@ pub const CONFIGS: &[Config] = &[
     cfg("krk-3tasks-d5-warm", KRKB, 5, true, 1, 9, false, true),
     cfg("kppkp-5tasks-d4", KPPKP, 4, false, 1, 9, false, true),
     cfg("kppkp-5tasks-d5-orders", KPPKP, 5, false, 0, 3, false, true),
-    cfg("ep-9tasks-d4", EPB, 4, false, 1, 2, false, true),
-    cfg("krkw-d4", KRKW, 4, false, 1, 1, false, true),
+    cfg("ep-9tasks-d4-orders", EPB, 4, false, 0, 2, false, true),
+    cfg("krkw-d4-orders", KRKW, 4, false, 0, 1, false, true),
     cfg("krkw-d5", KRKW, 5, false, 0, 1, false, true),
 ];
 
